@@ -35,7 +35,6 @@ import (
 
 	"github.com/tsuna/gohbase/hrpc"
 	"github.com/tsuna/gohbase/internal/verifsim"
-	"github.com/tsuna/gohbase/region"
 )
 
 // hookBus records every hook point hit (both packages) and can park the k-th hit.
@@ -76,14 +75,14 @@ func (b *hookBus) on(point string, detail string) {
 }
 
 func (b *hookBus) install() {
-	VerifHook = func(point string, c any, arg any) {
+	simSetHook(func(point string, c any, arg any) {
 		d := ""
 		if r, ok := arg.(hrpc.RegionInfo); ok && r != nil {
 			d = string(r.Name())
 		}
 		b.on(point, d)
-	}
-	region.VerifHook = func(point string, c any, arg any) { b.on(point, "") }
+	})
+	simSetRegionHook(func(point string, c any, arg any) { b.on(point, "") })
 }
 
 func (b *hookBus) uninstall() {
@@ -394,8 +393,8 @@ func TestVerifC19(t *testing.T) {
 			_ = orig
 			// park the k-th "dial.dialed"
 			bus.parkPt = ""
-			hook := region.VerifHook
-			region.VerifHook = func(point string, c any, arg any) {
+			hook := simRegionHook()
+			simSetRegionHook(func(point string, c any, arg any) {
 				if point == "dial.dialed" {
 					bus.mu.Lock()
 					n++
@@ -405,7 +404,7 @@ func TestVerifC19(t *testing.T) {
 					bus.mu.Unlock()
 				}
 				hook(point, c, arg)
-			}
+			})
 		}, parkThenClose)
 	}
 	// ---- A3: ZooKeeper keeps failing / hangs while the client is closed
@@ -534,7 +533,7 @@ func TestVerifC20(t *testing.T) {
 			if p.jitter != 0 {
 				jr = rand.New(rand.NewSource(p.jitter))
 			}
-			VerifHook = func(point string, c any, arg any) {
+			simSetHook(func(point string, c any, arg any) {
 				if point == "clientDown.removed" {
 					if r, ok := arg.(hrpc.RegionInfo); ok {
 						emit(map[string]any{"ev": "declaredDead", "addr": hostOf[string(r.Name())]})
@@ -546,7 +545,7 @@ func TestVerifC20(t *testing.T) {
 					mu.Unlock()
 					time.Sleep(d)
 				}
-			}
+			})
 			cl.DialHook = func(addr string) { emit(map[string]any{"ev": "dial", "addr": addr}) }
 			if p.killDuringProbe {
 				n := 0
@@ -664,13 +663,13 @@ func TestVerifC20(t *testing.T) {
 					}
 					return "rs1"
 				}
-				VerifHook = func(point string, c any, arg any) {
+				simSetHook(func(point string, c any, arg any) {
 					if point == "clientDown.removed" {
 						if r, ok := arg.(hrpc.RegionInfo); ok {
 							emit(map[string]any{"ev": "declaredDead", "addr": host(string(r.Name()))})
 						}
 					}
-				}
+				})
 				cl.DialHook = func(addr string) { emit(map[string]any{"ev": "dial", "addr": addr}) }
 				c := newSimClient(cl, RpcQueueSize(queue))
 				get := func(k string) {
